@@ -155,7 +155,7 @@ Section Read.
     match rs with
     | [] => Ok (b, StillOpen)                  (* nothing more offered: same as EAGAIN *)
     | RdWouldBlock :: _ => Ok (b, StillOpen)
-    | RdFail :: _ => Ok (b, Closed)            (* handle_conn_error(): in_buf is destroyed *)
+    | RdFail :: _ => Ok (b, Closed)            (* connection failed: reported to the caller *)
     | RdBytes rc bytes full :: rs' =>
       if tcp then
         match bytes with
@@ -168,15 +168,17 @@ Section Read.
         read_conn_packets tcp b' rs'
     end.
 
-  (* process_read() for a connection that exists *)
+  (* process_read() for a connection that exists.  A connection failure reported by the socket
+     (EOF, reset, ...) is handled only after the data read before it - in this call or an
+     earlier one - has been processed (fixes/C20-process-data-before-conn-error.patch; the
+     pinned code closed the connection first and lost that data). *)
   Definition process_read (tcp : bool) (b : buf) (rs : list rd)
     : outcome (buf * list (list Z) * conn_end) :=
     do r <- read_conn_packets tcp b rs;
     let '(b1, e) := r in
-    match e with
-    | Closed => Ok (b1, [], Closed)
-    | StillOpen => read_answers b1
-    end.
+    do ra <- read_answers b1;
+    let '(b2, ms, e2) := ra in
+    Ok (b2, ms, match e with Closed => Closed | StillOpen => e2 end).
 
   (* a sequence of read events on one connection; events after the close find no connection *)
   Fixpoint run_reads (tcp : bool) (b : buf) (calls : list (list rd))
@@ -281,11 +283,13 @@ Definition conn_write (c : conn) (data : list Z) (w : wcap) : conn * cerr * Z * 
         else (c1, CeSuccess, written, [EvSend data written])
     end.
 
-(* the part of ares_conn_flush after "done:" when status == ARES_SUCCESS *)
-Definition flush_done (c : conn) (tfo : bool) : outcome (conn * list cevent) :=
+(* the part of ares_conn_flush after "done:" when status == ARES_SUCCESS.  A TCP connection
+   that is not yet known to be established keeps WRITE interest (with or without fast open;
+   fixes/C20-tcp-write-interest-until-connected.patch) *)
+Definition flush_done (c : conn) : outcome (conn * list cevent) :=
   do l <- buf_len (c_out c);
   let flags := Z.lor ARES_CONN_STATE_READ
-                 (Z.lor (if tfo then ARES_CONN_STATE_WRITE else 0)
+                 (Z.lor (if c_tcp c && negb (c_connected c) then ARES_CONN_STATE_WRITE else 0)
                         (if negb (l =? 0) then ARES_CONN_STATE_WRITE else 0)) in   (* any transport *)
   Ok (sock_state_update c flags).
 
@@ -293,24 +297,24 @@ Definition hd_cap (ws : list wcap) : wcap := match ws with w :: _ => w | [] => C
 
 (* ares_conn_flush: (connection, status, events, unused socket answers).  One asendto for TCP
    (everything pending), one per datagram for UDP.  An exhausted answer list means EAGAIN. *)
-Fixpoint conn_flush_loop (fuel : nat) (tfo : bool) (c : conn) (ws : list wcap)
+Fixpoint conn_flush_loop (fuel : nat) (c : conn) (ws : list wcap)
   : outcome (conn * Z * list cevent * list wcap) :=
   match fuel with
   | O => Err OutOfFuel
   | S f =>
     do l <- buf_len (c_out c);
     if l =? 0 then
-      do r <- flush_done c tfo; Ok (fst r, ARES_SUCCESS, snd r, ws)
+      do r <- flush_done c; Ok (fst r, ARES_SUCCESS, snd r, ws)
     else if c_tcp c then
       do data <- buf_peek (c_out c);
       let '(c1, err, count, evs) := conn_write c data (hd_cap ws) in
       let ws' := if c_tcp c && negb (c_connected c) && negb (c_tfo_initial c) then ws else tl ws in
       match err with
       | CeFailure => Ok (c1, ARES_ECONNREFUSED, evs, ws')
-      | CeWouldBlock => do r <- flush_done c1 tfo; Ok (fst r, ARES_SUCCESS, evs ++ snd r, ws')
+      | CeWouldBlock => do r <- flush_done c1; Ok (fst r, ARES_SUCCESS, evs ++ snd r, ws')
       | CeSuccess =>
         do rc <- buf_consume (c_out c1) count;                (* result ignored by the C code *)
-        do r <- flush_done (set_out c1 (snd rc)) tfo; Ok (fst r, ARES_SUCCESS, evs ++ snd r, ws')
+        do r <- flush_done (set_out c1 (snd rc)); Ok (fst r, ARES_SUCCESS, evs ++ snd r, ws')
       end
     else
       do o1 <- buf_tag (c_out c);
@@ -327,16 +331,16 @@ Fixpoint conn_flush_loop (fuel : nat) (tfo : bool) (c : conn) (ws : list wcap)
           let '(c1, err, count, evs) := conn_write (set_out c o3) dgram (hd_cap ws) in
           match err with
           | CeFailure => Ok (c1, ARES_ECONNREFUSED, evs, tl ws)
-          | CeWouldBlock => do r <- flush_done c1 tfo; Ok (fst r, ARES_SUCCESS, evs ++ snd r, tl ws)
+          | CeWouldBlock => do r <- flush_done c1; Ok (fst r, ARES_SUCCESS, evs ++ snd r, tl ws)
           | CeSuccess =>
             do rc <- buf_consume (c_out c1) (count + 2);      (* the prefix was not sent *)
-            do r <- conn_flush_loop f tfo (set_out c1 (snd rc)) (tl ws);
+            do r <- conn_flush_loop f (set_out c1 (snd rc)) (tl ws);
             let '(c2, st2, evs2, ws2) := r in Ok (c2, st2, evs ++ evs2, ws2)
           end
   end.
 
 Definition conn_flush (c : conn) (ws : list wcap) : outcome (conn * Z * list cevent * list wcap) :=
-  conn_flush_loop (S (length (b_data (c_out c)))) (c_tfo_initial c) c ws.
+  conn_flush_loop (S (length (b_data (c_out c)))) c ws.
 
 (* ares_dns_write_buf_tcp on out_buf: placeholder, message, patch the length; > 65535 refused *)
 Definition enqueue (o : buf) (reclaim : bool) (msg : list Z) : outcome (Z * buf) :=
